@@ -376,7 +376,7 @@ class FunctionReference:
         if function_name is not None:
             self._function_name = function_name
         elif memento_fn is not None:
-            self._function_name = memento_fn.fn.__name__
+            self._function_name = memento_fn.fn.__qualname__
         else:
             assert (
                 function_name is not None
